@@ -343,6 +343,7 @@ type Family struct {
 	Name string // registry key, stored in replay files
 	Spec string // Trace_*.tla module
 	Cfg  string
+	Env  []string // extra environment for TLC (e.g. VPROP=C08 selects the clause set)
 	// Run executes one case against the real code and emits its events (the first must be "reset").
 	Run func(cs json.RawMessage, w *TraceWriter)
 	// Sig names the failing shape of a rejected case (used for known-findings and de-duplication).
@@ -407,7 +408,7 @@ func (c *Ctx) validate(f *Family, cases []json.RawMessage, shards int) (*traceOu
 			if w.line == 0 {
 				return
 			}
-			res, err := c.RunTLC(TLCOpts{Module: f.Spec, Cfg: f.Cfg, Workers: 1, HeapMB: 3000, Env: []string{"VTRACE=" + w.path}})
+			res, err := c.RunTLC(TLCOpts{Module: f.Spec, Cfg: f.Cfg, Workers: 1, HeapMB: 3000, Env: append([]string{"VTRACE=" + w.path}, f.Env...)})
 			emu.Lock()
 			defer emu.Unlock()
 			if err != nil {
@@ -567,7 +568,11 @@ func (c *Ctx) report(f *Family, sig string, cs json.RawMessage, line string, cou
 		"rejected_event": line, "cases_with_this_signature": count, "case": cs}, "", " ")
 	os.WriteFile(p, b, 0o644)
 	fmt.Printf("VIOLATION property=%s replay=%s\n", c.Prop, p)
-	fmt.Printf("  signature: %s (%d cases)\n  rejected event: %s\n", sig, count, line)
+	short := line
+	if len(short) > 400 {
+		short = short[:200] + " ... " + short[len(short)-180:]
+	}
+	fmt.Printf("  signature: %s (%d cases)\n  rejected event: %s\n", sig, count, short)
 	c.mu.Lock()
 	c.violations = append(c.violations, Violation{Sig: sig, What: line, Replay: p})
 	c.mu.Unlock()
